@@ -202,4 +202,19 @@ func init() {
 			"chunk independence of the six Minify functions would follow from 'the reader is used exactly once as the argument of parse.NewInput' plus io.ReadAll's contract; that lemma over assumed dependency contracts is not machine-checked here",
 		},
 	})
+	registerProp(&PropSpec{
+		ID:     "C11",
+		Custom: []string{"partial", "fscan"},
+		Partial: []string{modPath + "/html.(*Minifier).Minify", modPath + "/svg.(*Minifier).Minify", modPath + ".UpdateErrorPosition"},
+		Units:  []string{modPath + ".(*M).MinifyMimetype"},
+		Bounded: []BoundedUnit{
+			{Harness: modPath + ".specHarnessDataURIPayload", For: modPath + ".DataURI", QuickN: 3, ThoroughN: 4, What: "data: URIs with no registered minifier pass their payload through unchanged (up to re-encoding); see C18"},
+		},
+		Notes: []string{
+			"call-site obligations (site assertions over the ghost call trace) at the embedded-resource call sites of the real html.Minify (svg, math, raw-text elements, style and on* attributes) and svg.Minify (style text, style CDATA, style attribute): the call carries the prescribed media type (header identity of the package-level media type bytes; for raw text with a type attribute: parse.Mediatype's results), params (inline=1 for attributes and inline SVG; nil for math and defaulted raw text), writer and a reader over exactly the token's bytes; ErrNotExist => the original bytes are written next; any other error => returned through UpdateErrorPosition (which keeps it non-nil), the call's error being the one returned",
+			"dispatch to the registered minifier and 'exactly what it produces' is the trace contract of (*M).MinifyMimetype (C15): the sub-minifier writes into the same writer / the attribute buffer that is then written whole",
+			"A-globals-immutable: package-level variables are not reassigned after init (F obligations of the fscan checker for /repo's packages, assumed for dependencies); A-buffers: writer/reader buffers are heap arrays, never package-level data",
+			"not decided: re-escaping for the host syntax (EscapeAttrVal, A-dep), the media-type selection from the type attribute beyond passing parse.Mediatype's results, CSS url() data URIs, position arithmetic inside UpdateErrorPosition",
+		},
+	})
 }
